@@ -11,7 +11,8 @@ CONSTANTS
   FailSleeps = {0, 1}
   Bases = {0, 1}
   Gates = {FALSE, TRUE}
-  Kinds = {"block"}
+  Kinds = {"block", "header", "result"}
+  MaxSizes = {100, 3}
   MaxBatch = 10
   Cap = 10
   FailLimit = 3
